@@ -129,6 +129,14 @@ impl ReqMap {
     pub fn interference(&mut self, Ghost(me): Ghost<rpc::MessageId>)
         ensures rely(me, old(self).m@, final(self).m@)
     { unimplemented!() }
+    // an await point reached WHILE THIS TASK HOLDS THE RECEIVE LOCK: replies are read and parked only by the holder of that
+    // lock, so no other task can turn a Pending slot into Ready meanwhile (they may still insert new requests and complete
+    // their own slots)
+    #[verifier::external_body]
+    pub fn interference_holding_rx(&mut self, Ghost(me): Ghost<rpc::MessageId>)
+        ensures rely(me, old(self).m@, final(self).m@),
+                old(self).m@.contains_key(me) ==> final(self).m@[me] == old(self).m@[me],
+    { unimplemented!() }
 }
 
 
@@ -140,7 +148,8 @@ pub struct BuildFn;
 #[verifier::external_body]
 pub fn build_operation(ctx: &Context, f: BuildFn) -> (r: Result<Operation, Error>) { unimplemented!() }
 // the send half of the transport; `sent` = message-ids of all <rpc> frames ever handed to the transport on this session
-pub struct SendHandle { pub sent: Ghost<Set<MessageId>> }
+// `sent_ok` = those for which the transport reported success (the request is certainly on its way; a reply may arrive at once)
+pub struct SendHandle { pub sent: Ghost<Set<MessageId>>, pub sent_ok: Ghost<Set<MessageId>> }
 pub struct TxMutex { pub h: SendHandle }
 impl TxMutex {
     #[verifier::external_body]
@@ -155,6 +164,7 @@ impl Request {
     pub fn send(&self, tx: &mut SendHandle) -> (r: Result<(), Error>)
         requires !old(tx).sent@.contains(self.message_id),                                  // OBL:C05.rpc.message_id_not_used_before
         ensures final(tx).sent@ == old(tx).sent@.insert(self.message_id),
+                final(tx).sent_ok@ == (if r is Ok { old(tx).sent_ok@.insert(self.message_id) } else { old(tx).sent_ok@ }),
     { unimplemented!() }
 }
 pub enum Entry<'a> { Occupied(OccupiedEntry), Vacant(VacantEntry<'a>) }
@@ -196,8 +206,16 @@ impl ReplyFuture {
     pub fn new(message_id: MessageId, requests: MapHandle, rx: RxHandle) -> (r: ReplyFuture) ensures r.message_id == message_id { ReplyFuture { message_id } }
 }
 pub struct Session { pub transport_tx: TxMutex, pub transport_rx: RxMutex, pub context: Context, pub last_message_id: MessageId, pub requests: ReqMap }
+// invariant of the request-map lock: whenever the lock is free, every request that was successfully handed to the transport has
+// its slot in the map - otherwise another waiter that reads the reply in the meantime finds no slot for it (RequestNotFound
+// for that waiter, and the reply is lost for its owner)
+pub open spec fn wire_has_slots(sent_ok: Set<MessageId>, m: Map<MessageId, OutstandingRequest>) -> bool {
+    forall|id: MessageId| #[trigger] sent_ok.contains(id) ==> m.contains_key(id)
+}
 // session invariant: every id ever put on the wire, and every key of the request map, is <= the counter
 pub open spec fn session_inv(s: Session) -> bool {
+    &&& wire_has_slots(s.transport_tx.h.sent_ok@, s.requests.m@)
+    &&& forall|id: MessageId| #[trigger] s.transport_tx.h.sent_ok@.contains(id) ==> s.transport_tx.h.sent@.contains(id)
     &&& forall|id: MessageId| #[trigger] s.transport_tx.h.sent@.contains(id) ==> id.0 <= s.last_message_id.0
     &&& forall|id: MessageId| #[trigger] s.requests.m@.contains_key(id) ==> id.0 <= s.last_message_id.0
     &&& inv(s.requests.m@)
@@ -216,6 +234,13 @@ impl Session {
                 &&& final(self).transport_tx.h.sent@ == old(self).transport_tx.h.sent@.insert(fut.message_id)
                 &&& final(self).requests.m@ == old(self).requests.m@.insert(fut.message_id, OutstandingRequest::Pending)   // OBL:C05.rpc.slot_pending_under_own_id
             },
+// every acquisition of the request-map lock: the lock is free at that moment, so its invariant must hold there
+//@check-before-stmt /\.requests\s*\.lock\(\)/ 1
+        assert(wire_has_slots(self.transport_tx.h.sent_ok@, self.requests.m@));                 // OBL:C05.rpc.slot_exists_whenever_map_lock_is_free
+//@check-before-stmt /\.requests\s*\.lock\(\)/ 2 optional
+        assert(wire_has_slots(self.transport_tx.h.sent_ok@, self.requests.m@));                 // OBL:C05.rpc.slot_exists_whenever_map_lock_is_free
+//@check-before-stmt /\.requests\s*\.lock\(\)/ 3 optional
+        assert(wire_has_slots(self.transport_tx.h.sent_ok@, self.requests.m@));                 // OBL:C05.rpc.slot_exists_whenever_map_lock_is_free
 //@end
 }
 
@@ -240,7 +265,11 @@ impl Session {
                 assert(reply.message_id == message_id);                                     // OBL:C05.recv.caller_gets_reply_with_own_id
                 assert(requests.m@[message_id] is Complete);                                // OBL:C05.recv.delivered_at_most_once
 //@before /rpc::PartialReply::recv\(/ optional
-            requests.interference(Ghost(message_id));
+            requests.interference_holding_rx(Ghost(message_id));
+//@check-before /rpc::PartialReply::recv\(/ optional
+            // C05: a waiter goes to the transport only while its own reply is not parked in the map - otherwise that reply is
+            // never delivered unless some further frame happens to arrive
+            assert(requests.m@.contains_key(message_id) && !(requests.m@[message_id] is Ready));   // OBL:C05.recv.reads_only_while_own_reply_is_not_parked
 //@end
 
 } // verus!
